@@ -277,7 +277,16 @@ func (e *Env) Finish(v Verdict, livenessProp string) bool {
 				e.Violate("C04", cls, "%s: %s; frames: %s", why, d, nitroFrames(e.S.AbortStack()))
 			}
 		}
-		if len(e.Res.Violations) == 0 && e.S.FaultAddr() != 0 {
+		if len(e.Res.Violations) == 0 && e.Alloc != nil && (strings.Contains(why, "nil pointer dereference") || (e.S.Faulted() && e.S.FaultAddr() == 0)) {
+			// with user-managed memory a fault at a non-canonical address (reported as
+			// address 0) comes from a pointer read out of a poisoned (freed) block
+			cls := "fault-through-poisoned-or-nil-pointer/" + firstNitroFrame(e.S.AbortStack())
+			if e.S.SiteHits(skiplist.SiteInsertRelinkedMarked) > 0 {
+				cls = "use-after-free/node-relinked-by-inserter-after-its-delete-was-flushed"
+			}
+			e.Violate("C04", cls, "%s; frames: %s", why, nitroFrames(e.S.AbortStack()))
+		}
+		if len(e.Res.Violations) == 0 && e.S.Faulted() {
 			e.Violate("C04", "memory-fault/"+firstNitroFrame(e.S.AbortStack()), "%s; frames: %s", why, nitroFrames(e.S.AbortStack()))
 		}
 		if len(e.Res.Violations) == 0 {
